@@ -551,6 +551,10 @@ class RunLengthEncoding(Encoding):
         for value in self.sorted_gather((index,)):
             return np.asanyarray(value, dtype=self._dtype)
 
+    @property
+    def flat(self):
+        return self
+
     def copy(self):
         return RunLengthEncoding(self._data.copy(), dtype=self.dtype)
 
